@@ -175,5 +175,5 @@ func TestVerif_C19(t *testing.T) {
 		"FindClosureCommonAncestor is asymmetric by signature; only membership, ok and repeatability are required of it",
 		"both commits live in the same database (the two-reader form used by pull is not explored)")
 	defer rec.Write(t)
-	vh.Check(t, "pairs", 1500, 300, func(rt *rapid.T) { c19DatasCase(rt, rec) })
+	vh.Check(t, "pairs", 1500, 200, func(rt *rapid.T) { c19DatasCase(rt, rec) })
 }
